@@ -42,13 +42,17 @@ var c19Corpus = []string{
 	`function a() { return 1; } function b() { return 2; } function c() { return 3; } function d() { return 4; } return a() + b() + c() + d();`,
 	`x = {1.5: "a", "1.5": "b"}; hv(string(x)); return sprintf("%v|%v", x, keys(x));`,
 	`x = {false: 0, "false": 1, 0: 2, "0": 3}; t = ""; foreach k, v in x { t = t + string(v); } hv(t); return t;`,
+	`hv(id, Id, ID, url, URL, a, A, items, s, b); return string(id) + string(url) + string(iD);`,
+	`hv(M["key"], M["KEY"], M.key, keys(M)); foreach k, v in M { hv(k, v); } return len(M);`,
+	`x = {10: "ten", 2: "two", "1a": "str", 3.5: "f", "3.5": "s"}; hv(keys(x)); foreach k, v in x { hv(k); } return string(x);`,
+	`x = {2: "b", 10: "a", "10": "c", "2": "d", 1: "e"}; hv(string(x)); return keys(x);`,
 }
 
 func (p *c19) Enumerate(tier string) [][]int32 {
 	var out [][]int32
 	for i := range c19Corpus {
 		for opt := 0; opt < 2; opt++ {
-			for ob := 0; ob < 3; ob++ {
+			for ob := 0; ob < 4; ob++ {
 				out = append(out, []int32{1, int32(i), int32(opt), int32(ob)})
 			}
 		}
@@ -85,7 +89,7 @@ type c19Obs struct {
 }
 
 func c19Object(c *verifsim.Chooser) (interface{}, string) {
-	switch c.Intn(4) {
+	switch c.Intn(5) {
 	case 0:
 		return nil, "nil"
 	case 1:
@@ -94,6 +98,12 @@ func c19Object(c *verifsim.Chooser) (interface{}, string) {
 		return m, "map with nested maps"
 	case 2:
 		return Obj{A: 1, B: 2, C: 0, S: "ab", Items: []int{1, 2}, M: map[string]interface{}{"k": "v", "n": 2, "z": 3.5, "1": true}}, "struct with map field"
+	case 3:
+		// keys that differ only in case, and keys that differ only by type
+		// once printed: whichever lookup is not exact must not depend on
+		// the order the keys come out of a Go map
+		return map[string]interface{}{"ID": 1, "Id": 2, "iD": 3, "URL": "upper", "Url": "mixed", "a": 10, "A": 20, "items": []interface{}{1}, "Items": []interface{}{1, 2},
+			"M": map[string]interface{}{"Key": 1, "KEY": 2, "key": 3, "kEy": 4}, "S": "x", "s": "y", "B": 1, "b": 2, "C": 3}, "map with case-variant keys"
 	default:
 		return map[string]interface{}{"M": map[string]interface{}{"1": "s", "one": 1}, "A": 1.0, "B": 2.0, "C": 3.0, "S": "héllo", "Items": []interface{}{1.0, 2.0}}, "json-shaped"
 	}
@@ -242,8 +252,8 @@ func (p *c19) Run(c *verifsim.Chooser, st *Stats, render bool) *Outcome {
 	if mode == 1 {
 		cs.text = c19Corpus[c.Intn(len(c19Corpus))]
 		cs.opt = c.Intn(2) == 0
-		for i := c.Intn(3); i >= 0; i-- {
-			ob, d := c19Object(verifsim.NewReplay([]int32{int32(i)}))
+		for i := c.Intn(4); i >= 0; i-- {
+			ob, d := c19Object(verifsim.NewReplay([]int32{int32(i + 1)}))
 			cs.objs = append(cs.objs, ob)
 			cs.descs = append(cs.descs, d)
 		}
